@@ -230,6 +230,9 @@ def run(chk):
         r = repo.resolve(mi, name)
         ok = r is not None and r[0] == 'def' and r[1] is mm
         chk.ob('R07.5', f'rheology package exports {name} from models.pyx', ok, f'resolves to {r[:2] if r else None}', mi.rel(), method='import resolution')
+    from .common import inplace_lint
+    inplace_lint(chk, repo, 'R07.6', ['TidalPy/rheology/complex_compliance/compliance_models.py'])
+    chk.floor('R07.6', 1)
     chk.floor('R07.1', 14); chk.floor('R07.2', 15); chk.floor('R07.3', 12); chk.floor('R07.4', 4); chk.floor('R07.5', 50)
 
 
